@@ -1661,6 +1661,11 @@ class Union(OR):
         yield from self.evaluate_left(sources)
         yield from self.evaluate_right(sources)
 
+    def _invert_(self):
+        # The second pass reports the falsity of the right operand alone, which does not falsify the disjunction,
+        # so the generic negation (flip every result) is unsound here: negate by De Morgan instead.
+        return AND(self.left._invert_(), self.right._invert_())
+
 
 @dataclass(eq=False, repr=False)
 class ElseIf(OR):
